@@ -2,7 +2,7 @@
 import os, importlib
 import vlib
 
-TRANSLATORS = ["translate_methods"]
+TRANSLATORS = ["translate_methods", "translate_tableaus"]
 
 def regenerate(prop=None):
     info = {}
